@@ -183,7 +183,8 @@ void mon_dump(const ev_t *ev, size_t nev, const char *path)
 {
     static const char *nm[] = {"?", "SCHED", "PANEL_BEGIN", "PANEL_DONE", "MARK_BUSY", "COL_BEGIN", "COL_PIVOTED",
         "COL_RELEASE", "WAIT_BEGIN", "WAIT_END", "SN_READ_BEGIN", "SN_READ_END", "SN_XCHG", "PRUNE_BEGIN", "PRUNE_END",
-        "SUB_READ_BEGIN", "SUB_READ_END", "NSUPER", "LSUB_ALLOC", "ALLOC_LUSUP", "DYN_SETMAP", "SNODE_BEGIN"};
+        "SUB_READ_BEGIN", "SUB_READ_END", "NSUPER", "LSUB_ALLOC", "ALLOC_LUSUP", "DYN_SETMAP", "SNODE_BEGIN", "WORK_ALLOC", "WORK_FREE"};
+    _Static_assert(sizeof nm / sizeof nm[0] == SLUV_E_MAX, "event name table out of date");
     FILE *f = fopen(path, "w");
     if (!f) return;
     for (size_t i = 0; i < nev; ++i)
